@@ -536,10 +536,16 @@ def _cmp_vals(x, y, m=None):
                     return m.call_path(it["path"], [x, y])
         raise Unsupported("no Ord impl found for %s" % x.path)
     if isinstance(x, Adt):
-        # foreign opaque value: order by structural repr (any fixed total order)
+        # foreign opaque value: order by structural repr (any fixed total order).  A path that looks like one of this
+        # crate's modules but names no type of it is a mistake in the check that built the value, not a foreign type
+        if m is not None and x.path.split("::")[0] in _CRATE_ROOTS and x.path not in m.facts.adts:
+            raise Unsupported("ordering a value of unknown crate type %s" % x.path)
         rx, ry = repr(x), repr(y)
         return Adt(ORDERING, "Less" if rx < ry else ("Greater" if rx > ry else "Equal"))
     raise Unsupported("cmp of %r and %r" % (x, y))
+
+
+_CRATE_ROOTS = ("policy", "miniscript", "descriptor", "plan", "psbt", "interpreter", "primitives", "util", "expression", "iter")
 
 
 @treg("std::cmp::PartialEq", "eq")
